@@ -80,6 +80,9 @@ fn main() {
         Some("panic-child") => {
             props::pipe::panic_child(args[2].parse().unwrap(), args[3].parse().unwrap(), args[4].parse().unwrap());
         }
+        Some("panic-child-later") => {
+            props::pipe::panic_child_later(args[2].parse().unwrap(), args[3].parse().unwrap(), args[4].parse().unwrap());
+        }
         Some("deep-child") => {
             props::pipe::deep_child(args[2].parse().unwrap(), args[3].parse().unwrap(), args[4].parse().unwrap());
         }
